@@ -50,7 +50,7 @@ var c16Types = map[string]reflect.Type{
 // (Flag and Ratio carry the SAME key-less tag text `yaml:",omitempty"`: their keys still come from their own names)
 var c16TagForm = map[string]string{"Flag": "flagonly", "Ratio": "flagonly", "Count": "omitempty", "Items": "untagged"}
 
-func c16StructType(desc []any) reflect.Type {
+func c16StructType(desc []any, rot int64) reflect.Type {
 	fields := []reflect.StructField{}
 	for _, d := range desc {
 		dm := d.(map[string]any)
@@ -65,7 +65,8 @@ func c16StructType(desc []any) reflect.Type {
 		case "skip":
 			tag = `yaml:"-"`
 		case "inline":
-			tag = `yaml:",inline"`
+			// the inline flag is a flag like any other: alone, or next to further flags in either order
+			tag = []string{`yaml:",inline"`, `yaml:",inline,omitempty"`, `yaml:",omitempty,inline"`, `yaml:",inline"`}[rot%4]
 		default:
 			switch c16TagForm[name] {
 			case "untagged":
@@ -257,15 +258,18 @@ func c16Event(c obj) obj {
 	pre, _ := c["pre"].(bool)
 	ev := obj{"c": obj{"desc": desc, "doc": doc, "pre": pre, "rot": c["rot"]}} // rot: the document key order is a function of the case
 	p, msg := guarded(func() {
-		T := c16StructType(desc)
+		seed := int64(1)
+		if r, ok := c["rot"].(json.Number); ok {
+			seed, _ = r.Int64()
+		}
+		if seed < 0 {
+			seed = -seed
+		}
+		T := c16StructType(desc, seed)
 		// document key order is shuffled: which key goes where must not depend on it
 		order := make([]int, len(doc))
 		for i := range order {
 			order[i] = i
-		}
-		seed := int64(1)
-		if r, ok := c["rot"].(json.Number); ok {
-			seed, _ = r.Int64()
 		}
 		rand.New(rand.NewSource(seed)).Shuffle(len(order), func(i, j int) { order[i], order[j] = order[j], order[i] })
 		src := ordered.NewMap[string, any](0)
